@@ -656,6 +656,7 @@ def evidence(chk, ref, det, state, wall, t_batches, new, kn):
             "calls": {"total": st.get("calls", 0), "judged": st.get("calls_judged", 0), "raising": st.get("calls_raising", 0),
                       "faulted_not_judged": st.get("calls_faulted", 0),
                       "unjudged_unrebuildable_argument": st.get("calls_unjudged_unrebuildable", 0),
+                      "unjudged_memoryerror_outcome": st.get("calls_unjudged_memoryerror", 0),
                       "judged_after_adversarial_event": st.get("judged_after_adversarial_event", 0),
                       "bystander_checks_I4": st.get("bystander_checks", 0),
                       "by_family": fam("calls:"), "judged_by_family": fam("judged:")},
